@@ -85,6 +85,10 @@ def _flag_value(e: ast.expr, bound: Set[str]) -> bool:
     — a builtin, a module-level function or class."""
     if isinstance(e, (ast.Constant, ast.Lambda)):
         return True
+    # partial(F, a, b) over stable names: the same callable wherever it is read
+    if isinstance(e, ast.Call) and ((isinstance(e.func, ast.Name) and e.func.id == "partial") or (isinstance(e.func, ast.Attribute) and e.func.attr == "partial")) and e.args and not e.keywords \
+            and all(isinstance(a, (ast.Name, ast.Attribute, ast.Constant)) for a in e.args):
+        return True
     x = e
     while isinstance(x, ast.Attribute):
         x = x.value
@@ -92,6 +96,9 @@ def _flag_value(e: ast.expr, bound: Set[str]) -> bool:
         return True
     # a bound method of a local that is bound once (`lookup = conn.get`): the same callable wherever the flag is read
     if isinstance(x, ast.Name) and isinstance(e, ast.Attribute) and x.id in _ONCE.get("names", set()):
+        return True
+    # the name of a local function that is defined once
+    if isinstance(e, ast.Name) and e.id in _ONCE.get("localdefs", set()):
         return True
     return False
 
@@ -855,6 +862,11 @@ def run(fn: ast.AST, noreturn: Set[str]) -> int:
             cnt[x.arg] = cnt.get(x.arg, 0) + 1
     _ONCE["names"] = {k for k, v in cnt.items() if v == 1}
     _ONCE["locals"] = set(cnt)
+    ld: Dict[str, int] = {}
+    for x in ast.walk(fn):
+        if isinstance(x, (ast.FunctionDef, ast.AsyncFunctionDef)) and x is not fn:
+            ld[x.name] = ld.get(x.name, 0) + 1
+    _ONCE["localdefs"] = {k for k, v in ld.items() if v == 1 and k not in cnt}
     n = drop_self_assignments(fn)
     for _k in range(4):
         e = expand_table_lookups(fn)
